@@ -39,6 +39,10 @@ def get_splicers(fname, out):
                 i = line.find(str_begin)
                 if i > 0:
                     fields = line[i + len(str_begin) :].split()
+                    if not fields:
+                        raise RuntimeError(
+                            "Missing tag after '%s' in %s" % (str_begin, fname)
+                        )
                     tag = fields[0]
                     begin_tag = tag
                     subtags = tag.split(".")
@@ -55,6 +59,10 @@ def get_splicers(fname, out):
                 i = line.find(str_end)
                 if i > 0:
                     fields = line[i + len(str_end) :].split()
+                    if not fields:
+                        raise RuntimeError(
+                            "Missing tag after '%s' in %s" % (str_end, fname)
+                        )
                     end_tag = fields[0]
                     #                    print("END", end_tag)
                     if begin_tag != end_tag:
